@@ -174,7 +174,8 @@ Section StepB.
                       = ONormal (mkst [VPtr bl 0; VInt q; VInt 32; VPtr bh (Z.of_nat (9 * u))] m3) /\
                       urep T m3 bl blk3 bh hblk lb2 /\
                       (forall b, b <> bl -> nth_error m3 b = nth_error m2 b) /\
-                      (forall B, rows_le B blk2 -> Z.of_nat (pos (nth u (hist lb2) dflt)) <= B -> saved_le B m2 hblk u -> rows_le B blk3).
+                      (forall B, rows_le B blk2 -> Z.of_nat (pos (nth u (hist lb2) dflt)) <= B -> saved_le B m2 hblk u -> rows_le B blk3) /\
+                      (forall j, (64 <= j)%nat -> nth_error blk3 j = nth_error blk2 j).
   Proof.
     intros R Hu Hf u lo blk1 m1. pose proof R as [Hb L I Cn Rn Cq Ch Csz Cnn Cu Cz Cl Rg Hh Hl He Ho Ht].
     destruct Rg as (Rq & (Ru & Rs) & Rz & Rsz).
@@ -214,7 +215,7 @@ Section StepB.
     destruct (undo_marks_ok_b q u 32 0 (upd m2 bl b3) b3 fuel' ltac:(lia) (mem_upd_same m2 bl b3 Hbl2) (mk_eq_len _ _ E3 L2) (mk_eq_ints _ _ E3) Nhl
                 (u_hblk _ _ _ _ _ _ _ R3) Hlen E3m Nmk Hf) as (b4 & C4 & E4 & V4).
     unfold undo_marks, undo_body, undo_while in C4; cbn [fn_body cf_lbuf_undo] in C4. change (Z.of_nat 0) with 0 in C4.
-    exists (upd (upd m2 bl b3) bl b4), b4. split; [|split; [apply (urep_marks T _ bl b3 b4 bh hblk lb2 TF R3 E4)|split]].
+    exists (upd (upd m2 bl b3) bl b4), b4. split; [|split; [apply (urep_marks T _ bl b3 b4 bh hblk lb2 TF R3 E4)|split; [|split]]].
     - destruct Hvd as [->|[bd ->]]; xstep;
       (rewrite (hc_load m1 bh hblk (9 * u + 2) _ Hh1) by lia); rewrite E1p; xstep;
       (rewrite (hc_load m1 bh hblk (9 * u + 3) _ Hh1) by lia); rewrite E1ni; xstep;
@@ -227,6 +228,7 @@ Section StepB.
       + apply V3; [exact HB| |exact Hp]. unfold i32, i31 in *. lia.
       + apply (saved_le_keep B m2); [exact HS|]. intros bm H7. apply mem_upd_other; [exact Hbl2|].
         intro X. apply Nmk. unfold mark_blocks. rewrite H7. cbn [ptr_block app In]. left. exact X.
+    - intros j Hj. destruct E3 as (_ & _ & X3). destruct E4 as (_ & _ & X4). rewrite X4, X3 by exact Hj. reflexivity.
   Qed.
 
   Lemma redo_step_b (m : mem) (blk : block) lb (q : Z) (l2 : val) fuel' : urep T m bl blk bh hblk lb -> (hist_u lb < length (hist lb))%nat ->
@@ -239,7 +241,8 @@ Section StepB.
                       = ONormal (mkst [VPtr bl 0; VInt q; VPtr bh (Z.of_nat (9 * u))] m3) /\
                       urep T m3 bl blk3 bh hblk lb2 /\
                       (forall b, b <> bl -> nth_error m3 b = nth_error m2 b) /\
-                      (forall B, rows_le B blk2 -> Z.of_nat (pos (nth u (hist lb2) dflt)) <= B -> rows_le B blk3).
+                      (forall B, rows_le B blk2 -> Z.of_nat (pos (nth u (hist lb2) dflt)) <= B -> rows_le B blk3) /\
+                      (forall j, (64 <= j)%nat -> nth_error blk3 j = nth_error blk2 j).
   Proof.
     intros R Hu u lo blk1 m1. pose proof R as [Hb L I Cn Rn Cq Ch Csz Cnn Cu Cz Cl Rg Hh Hl He Ho Ht].
     destruct Rg as (Rq & (Ru & Rs) & Rz & Rsz).
@@ -265,7 +268,7 @@ Section StepB.
     assert (Hbl2 : (bl < length m2)%nat) by (apply nth_error_Some; congruence).
     pose proof (He2 u Hu2) as E2. destruct E2 as [_ _ E2p _ _ [zo2 E2o] _ E2m (Rp2 & _)].
     destruct (tr_loadpos_b m2 bl bh blk2 hblk u _ _ d fuel Hb2 L2 I2 Nhl Hh2 Hlen E2p E2o) as (b3 & C3 & E3 & V3).
-    exists (upd m2 bl b3), b3. split; [|split; [apply (urep_marks T m2 bl blk2 b3 bh hblk lb2 TF R2 E3)|split]].
+    exists (upd m2 bl b3), b3. split; [|split; [apply (urep_marks T m2 bl blk2 b3 bh hblk lb2 TF R2 E3)|split; [|split]]].
     - unfold redo_body, redo_while; cbn [fn_body cf_lbuf_redo]. xstep.
       xfld Hb Ch. xfld Hb Cu. rewrite wrap_I32_id by (unfold i31 in *; lia). rewrite chk_I32 by (unfold i31 in *; lia). xstep.
       replace (Z.of_nat (hist_u lb) + 1) with (Z.of_nat (S u)) by (unfold u; lia).
@@ -281,5 +284,6 @@ Section StepB.
         unfold cx at 1; rewrite (callx_mono ext _ _ _ _ _ _ _ C3); xstep; reflexivity.
     - intros b Nb. apply mem_upd_other; assumption.
     - intros B HB Hp. apply V3; [exact HB| |exact Hp]. unfold i32, i31 in *. lia.
+    - intros j Hj. destruct E3 as (_ & _ & X3). apply X3. exact Hj.
   Qed.
 End StepB.
